@@ -90,6 +90,10 @@ def value_plan(rng, name):
         c["target_delay"] = rng.choice([1, 2, 3, 5])
         c["target_policy_noise"] = rng.choice([0.0, 0.2])
         c["exploration_noise"] = rng.choice([0.0, 0.1, 0.2])
+    if name in ("nature_dqn", "ddqn", "ddqn_per"):
+        # online and target network must differ at most updates (several online updates between two target copies)
+        c["target_update_frequency"] = rng.choice([3, 5, 7, 7])
+        c["update_frequency"] = rng.choice([1, 1, 2])
     if name == "mrq":
         # boundary: a terminated flag on the LAST step of the n-step window (with horizon 1: every terminated transition)
         c["q_horizon"] = rng.choice([1, 1, 2, 3])
